@@ -27,10 +27,15 @@
 (*   Locking     TRUE   | FALSE   map guarded against concurrent getters   *)
 (*   KeepEmpty   TRUE   | FALSE   `k=` in the file empties k in memory     *)
 (*   Strategy    "rename" | "trunc"   (FsWrite)                            *)
+(* and one knob for a design golib never had but that a "tidier" reload    *)
+(* would have (remember the version AFTER it was loaded successfully):     *)
+(*   StampAt     "stat" | "after"   the stamp reload remembers is the one  *)
+(*                                  its stat returned before the parse |   *)
+(*                                  one taken by a second stat after it    *)
 (***************************************************************************)
 EXTENDS FsWrite, Bytes
 
-CONSTANTS Granularity, Locking, KeepEmpty
+CONSTANTS Granularity, Locking, KeepEmpty, StampAt
 
 VARIABLES mem,       \* in-memory map: key -> value (raw, untrimmed)
           lastSeen,  \* stamp of the version last loaded
@@ -259,7 +264,7 @@ Edit(L) == /\ L # File
 RlStat ==
   /\ rl.pc = "idle" /\ ~Dead
   /\ IF Changed
-       THEN /\ lastSeen' = Stamp(Conf)
+       THEN /\ lastSeen' = IF StampAt = "after" THEN lastSeen ELSE Stamp(Conf)
             /\ rl' = [pc |-> "parse", snap |-> <<>>, todo |-> {}, dirty |-> FALSE]
             /\ UNCHANGED fresh
        ELSE /\ fresh' = TRUE
@@ -269,8 +274,25 @@ RlStat ==
 RlParse ==
   /\ rl.pc = "parse" /\ ~Dead
   /\ Exists(Conf)
-  /\ rl' = [rl EXCEPT !.pc = "apply", !.snap = Parsed, !.todo = DOMAIN Parsed]
+  /\ rl' = [rl EXCEPT !.pc = IF StampAt = "after" THEN "restat" ELSE "apply", !.snap = Parsed, !.todo = DOMAIN Parsed]
   /\ UNCHANGED <<fsvars, mem, lastSeen, note, nnote, busy, fatal, fresh, opt, wkv>>
+
+\* (StampAt = "after" only) the second stat: whatever the file is NOW is remembered as loaded
+RlRestat ==
+  /\ rl.pc = "restat" /\ ~Dead
+  /\ Exists(Conf)
+  /\ lastSeen' = Stamp(Conf)
+  /\ rl' = [rl EXCEPT !.pc = "apply"]
+  /\ UNCHANGED <<fsvars, mem, note, nnote, busy, fatal, fresh, opt, wkv>>
+
+\* all map assignments of the reload at once (trace validation of a reload taken apart: the
+\* harness stops the real reload before and after its parse and inside the notification,
+\* not between two assignments)
+RlApplyAll ==
+  /\ rl.pc = "apply" /\ ~Dead /\ ~busy
+  /\ mem' = Merge(mem, rl.snap)
+  /\ rl' = [rl EXCEPT !.todo = {}]
+  /\ UNCHANGED <<fsvars, lastSeen, note, nnote, busy, fatal, fresh, opt, wkv>>
 
 \* one map assignment: a window in which the map is inconsistent
 RlApplyBegin ==
